@@ -1867,8 +1867,10 @@ impl<'a> Socket<'a> {
         control = control.quash_psh();
 
         // If a FIN is received at the end of the current segment, but
-        // we have a hole in the assembler before the current segment, disregard this FIN.
-        if control == TcpControl::Fin && window_start < segment_start {
+        // we have a hole in the assembler before the current segment, or the end of the
+        // segment's data was cut off at the right window edge, disregard this FIN.
+        if control == TcpControl::Fin && (window_start < segment_start || window_end < segment_end)
+        {
             tcp_trace!(
                 "ignoring FIN because we don't have full data yet. window_start={} segment_start={}",
                 window_start,
